@@ -1,19 +1,40 @@
 #!/venv/bin/python
-"""Development-time tool: print the markdown table of seeded changes (for DESIGN.md 8.5) from seeded/*/meta.json."""
+"""Development-time tool: rewrite the table of seeded changes in DESIGN.md (between the seeded-table markers) from
+seeded/*/meta.json."""
 import glob
 import json
 import os
+import re
 
 HERE = os.path.dirname(os.path.dirname(os.path.abspath(__file__)))
-print("| change | breaks | needs to manifest | checks run (exit) | first report |")
-print("|---|---|---|---|---|")
-for d in sorted(glob.glob(os.path.join(HERE, "seeded", "*"))):
+
+
+def key(d):
+    m = re.match(r"C(\d+)-(\d+)", os.path.basename(d))
+    return int(m.group(1)), int(m.group(2))
+
+
+rows = ["| change | breaks | needs to manifest | checks run against it | first report |", "|---|---|---|---|---|"]
+missed_first = []
+for d in sorted(glob.glob(os.path.join(HERE, "seeded", "*")), key=key):
     m = json.load(open(os.path.join(d, "meta.json")))
-    runs = ", ".join(f"{c} {'VIOLATION' if r['exit'] == 1 else 'silent' if r['exit'] == 0 else 'rc=%s' % r['exit']} ({r['wall_s']:.0f} s)"
+    runs = "; ".join(f"{c}: {'VIOLATION' if r['exit'] == 1 else 'silent' if r['exit'] == 0 else 'rc=%s' % r['exit']} ({r['wall_s']:.0f} s)"
                      for c, r in m["checks_run"].items())
     first = ""
     for c, r in m["checks_run"].items():
         if r.get("first_violation"):
-            first = f"{c}: {r['first_violation'].get('kind')}"
+            first = f"{c.split(' ')[0]}: {r['first_violation'].get('kind')}"
             break
-    print(f"| {os.path.basename(d)} | {m['breaks_property']} | {m['needs_to_manifest']} | {runs} | {first} |")
+    need = m["needs_to_manifest"].replace("|", "\\|")
+    if m.get("note"):
+        need += " — *" + m["note"].replace("|", "\\|") + "*"
+        missed_first.append(os.path.basename(d))
+    rows.append(f"| {os.path.basename(d)} | {m['breaks_property']} | {need} | {runs.replace('|', chr(92) + '|')} | {first} |")
+table = "\n".join(rows)
+p = os.path.join(HERE, "DESIGN.md")
+s = open(p).read()
+a, b = "<!-- seeded-table-begin -->", "<!-- seeded-table-end -->"
+assert a in s and b in s
+s = s[:s.index(a) + len(a)] + "\n" + table + "\n" + s[s.index(b):]
+open(p, "w").write(s)
+print(len(rows) - 2, "seeded changes;", "with a note (missed at first or needing the thorough tier):", missed_first)
